@@ -239,7 +239,8 @@ def check_auto_radius(out: Outcome, rng):
     grid = rng.permutation(20 ** 3)[:ns]
     sites = np.array([[(g // 400) / 20, ((g // 20) % 20) / 20, (g % 20) / 20] for g in grid])
     traj = gem.make_traj(np.zeros((2, 1, 3)), lat, ['Li'])
-    st = gem.make_sites(lat, sites)
+    # every other time the site structure carries the cell of a reference crystal: separations are those of the simulation cell
+    st = gem.make_sites(gem.reference_cell(rng, lat) if rng.random() < 0.5 else lat, sites)
     mp = core.drive1(f'minpair {gem.enc_m3(lat)} {gem.enc_v3s(sites)}').split()[1]
     dmin_sq = core.dec_rat(mp)
     if dmin_sq < 0:
